@@ -21,8 +21,9 @@ def demand_case(seed):
     DM = rnd.choice([1.0, 0.5, 1.25, 2.0])
     wn.options.time.pattern_timestep = Pat
     wn.options.time.pattern_start = PatStart
-    wn.options.time.hydraulic_timestep = Pat
-    wn.options.time.report_timestep = Pat
+    rep = rnd.choice([Pat, Pat, 2 * Pat, 3 * Pat, Pat // 2])       # also coarser / finer than the pattern step
+    wn.options.time.hydraulic_timestep = min(Pat, rep)
+    wn.options.time.report_timestep = rep
     wn.options.hydraulic.demand_multiplier = DM
     import math
     while True:
